@@ -17,6 +17,19 @@ Theorem C03_where_error_is_total : forall cond rows r e,
   In r rows -> eval r cond = Err e -> exists e', filter_rows cond rows = Err e'.
 Proof. exact filter_rows_error. Qed.
 
+(* the whole statement SELECT e1, .., en FROM src [WHERE c] (no grouping, ordering, limit): the rows of the source
+   (a table, a derived table, a CTE, any tree of joins), filtered by the condition, each replaced by the values of
+   the select list - in the order of the source, nothing added, nothing dropped, an error anywhere is the error
+   of the statement.  With one table as the source this is "a query over a single source keeps that source's
+   row order". *)
+Theorem C03_select_is_source_then_filter_then_projection : forall strict src wh es,
+  eval_query strict (Q (BSelect src wh None None (map SExpr es) false) [] None None) =
+  (do rows <- eval_source strict src;
+   do kept <- (match wh with None => Ok rows | Some c => filter_rows c rows end);
+   mapM (fun r => mapM (eval r) es) kept).
+Proof. exact select_pipeline. Qed.
+Print Assumptions C03_select_is_source_then_filter_then_projection.
+
 (* the five join kinds equal their definitions as list comprehensions (whenever the ON condition
    evaluates on every pair): INNER = all pairs with a TRUE condition; LEFT / RIGHT = those, and each
    row without partner once, padded with NULLs; FULL = LEFT plus the unmatched right rows *)
@@ -175,3 +188,39 @@ Example C03_recursive_example :
        (fun work => Q (BSelect (SrcTable 1 work) (Some (ELit (VTern TF))) None None [SExpr (ECol 0)] false) [] None None) 10)
   = Ok [[VInt 1]; [VInt 2]].
 Proof. vm_compute. split; reflexivity. Qed.
+
+(* the same as a relational statement: an INNER / LEFT JOIN LATERAL holds exactly the pairs of a left row and a
+   row of the derived table evaluated for that left row on which the ON condition is TRUE, and (LEFT) every left
+   row without such a partner, padded with NULLs *)
+Theorem C03_lateral_join_membership : forall (p : row -> bool) cond (v : row -> val),
+  (forall x, p x = is_true (v x)) ->
+  forall k lw rw (sub : row -> res (list row)) ls out,
+  k = JInner \/ k = JLeft ->
+  (forall l rs r, In l ls -> sub l = Ok rs -> In r rs -> eval (l ++ r) cond = Ok (v (l ++ r))) ->
+  lateral_rows k (Some cond) lw rw sub ls = Ok out ->
+  forall x, In x out <->
+    (exists l rs r, In l ls /\ sub l = Ok rs /\ In r rs /\ p (l ++ r) = true /\ x = l ++ r) \/
+    (k = JLeft /\ exists l rs, In l ls /\ sub l = Ok rs /\ (forall r, In r rs -> p (l ++ r) = false) /\ x = l ++ nulls rw).
+Proof. exact lateral_rows_membership. Qed.
+Print Assumptions C03_lateral_join_membership.
+
+(* ---- sub-queries inside expressions ------------------------------------------------------------------------ *)
+(* Sub-queries are not expressions of the model.  The harness states [NOT] EXISTS (..), x [NOT] IN (SELECT ..) in a
+   WHERE clause and an aggregate sub-query in a select list through the LATERAL join: the sub-query, evaluated for
+   every row o of the source, returns one row holding a count n(o) (of its rows / of its rows that compare TRUE /
+   not FALSE with x) resp. the aggregate's value, and is joined on "count > 0" / "count = 0" / not at all.  What
+   that form means is proved here: exactly the rows with a positive (zero) count survive, in order; a one-value
+   sub-query adds its value to every row. *)
+Require Import Csvq.Proofs.Subq.
+Theorem C03_exists_and_in_subqueries_as_lateral_counts : forall (positive : bool) (n : row -> Z) lw (ls : list row),
+  Forall (fun o => length o = lw) ls ->
+  lateral_rows JInner (Some (ECmp (if positive then Compare.OpGt else Compare.OpEq) (ECol lw) (ELit (VInt 0)))) lw 1
+               (fun o => Ok [[VInt (n o)]]) ls
+  = Ok (map (fun o => o ++ [VInt (n o)])
+            (filter (fun o => if positive then (0 <? n o)%Z else (n o =? 0)%Z) ls)).
+Proof. exact lateral_count_filter. Qed.
+Print Assumptions C03_exists_and_in_subqueries_as_lateral_counts.
+
+Theorem C03_scalar_subquery_as_lateral_column : forall (f : row -> val) lw (ls : list row),
+  lateral_rows JCross None lw 1 (fun o => Ok [[f o]]) ls = Ok (map (fun o => o ++ [f o]) ls).
+Proof. exact lateral_scalar_column. Qed.
